@@ -98,4 +98,274 @@ theorem run_end {o : Fin 8 → Prop} (h : AnglesOK o) (j : Fin 8) (hj : o j) (hn
       · exact b a2
     · exact Or.inl a2
 
+/-! ### the eight quarters around a grid point, named from its NW cell `(y, x)` -/
+
+def oAt (W : Quarter → Prop) (y x : Int) : Fin 8 → Prop
+  | 0 => W ⟨y, x, 1⟩
+  | 1 => W ⟨y, x, 2⟩
+  | 2 => W ⟨y + 1, x, 0⟩
+  | 3 => W ⟨y + 1, x, 1⟩
+  | 4 => W ⟨y + 1, x + 1, 3⟩
+  | 5 => W ⟨y + 1, x + 1, 0⟩
+  | 6 => W ⟨y, x + 1, 2⟩
+  | 7 => W ⟨y, x + 1, 3⟩
+
+theorem anglesAt {W : Quarter → Prop} (ha : Angles W) (y x : Int) : AnglesOK (oAt W y x) := by
+  have h := ha (y + 1) (x + 1)
+  have e : (fun i => W (octant (y + 1) (x + 1) i)) = oAt W y x := by
+    funext i
+    fin_cases i <;> simp [oAt, octant]
+  rw [e] at h
+  exact h
+
+def Full (W : Quarter → Prop) (y x : Int) : Prop := ∀ q, W ⟨y, x, q⟩
+
+section
+variable {W : Quarter → Prop}
+
+theorem p1 (ha : Angles W) (y x : Int) (h1 : W ⟨y, x, 2⟩) (h2 : ¬ W ⟨y + 1, x, 0⟩) :
+    W ⟨y, x, 1⟩ ∧ (W ⟨y, x + 1, 3⟩ → W ⟨y, x + 1, 2⟩ ∧ ¬ W ⟨y + 1, x + 1, 0⟩) := by
+  obtain ⟨a, b⟩ := run_end (anglesAt ha y x) 1 h1 h2
+  refine ⟨a, fun h7 => ?_⟩
+  rcases b with b | ⟨_, b, c⟩
+  · exact absurd h7 b
+  · exact ⟨b, c⟩
+
+theorem p2 (ha : Angles W) (y x : Int) (h6 : W ⟨y, x + 1, 2⟩) (h5 : ¬ W ⟨y + 1, x + 1, 0⟩) :
+    W ⟨y, x + 1, 3⟩ ∧ (W ⟨y, x, 1⟩ → W ⟨y, x, 2⟩ ∧ ¬ W ⟨y + 1, x, 0⟩) := by
+  obtain ⟨a, b⟩ := run_start (anglesAt ha y x) 6 h6 h5
+  refine ⟨a, fun h0 => ?_⟩
+  rcases b with b | ⟨_, b, c⟩
+  · exact absurd h0 b
+  · exact ⟨b, c⟩
+
+theorem p3 (ha : Angles W) (y x : Int) (f1 : Full W y x) (f2 : Full W y (x + 1)) (h2 : W ⟨y + 1, x, 0⟩) :
+    ∀ i, oAt W y x i :=
+  angles_all_of_five (anglesAt ha y x) 6 (f2 2) (f2 3) (f1 1) (f1 2) h2
+
+theorem p4 (ha : Angles W) (y x : Int) (f1 : Full W y x) (f2 : Full W y (x + 1)) (h5 : W ⟨y + 1, x + 1, 0⟩) :
+    ∀ i, oAt W y x i :=
+  angles_all_of_five (anglesAt ha y x) 5 h5 (f2 2) (f2 3) (f1 1) (f1 2)
+
+theorem p5 (ha : Angles W) (y x : Int) (h0 : ¬ W ⟨y, x, 1⟩) (f2 : Full W y (x + 1)) (h5 : W ⟨y + 1, x + 1, 0⟩) :
+    W ⟨y + 1, x + 1, 3⟩ ∧ ¬ W ⟨y + 1, x, 1⟩ := by
+  obtain ⟨_, b⟩ := run_end (anglesAt ha y x) 7 (f2 3) h0
+  rcases b with b | ⟨_, b, c⟩
+  · exact absurd h5 b
+  · exact ⟨b, c⟩
+
+theorem p6 (ha : Angles W) (y x : Int) (h7 : ¬ W ⟨y, x + 1, 3⟩) (f1 : Full W y x) (h2 : W ⟨y + 1, x, 0⟩) :
+    W ⟨y + 1, x, 1⟩ ∧ ¬ W ⟨y + 1, x + 1, 3⟩ := by
+  obtain ⟨_, b⟩ := run_start (anglesAt ha y x) 0 (f1 1) h7
+  rcases b with b | ⟨_, b, c⟩
+  · exact absurd h2 b
+  · exact ⟨b, c⟩
+
+theorem p3' (ha : Angles W) (y x : Int) (f1 : Full W (y + 1) x) (f2 : Full W (y + 1) (x + 1)) (h1 : W ⟨y, x, 2⟩) :
+    ∀ i, oAt W y x i :=
+  angles_all_of_five (anglesAt ha y x) 1 h1 (f1 0) (f1 1) (f2 3) (f2 0)
+
+theorem p4' (ha : Angles W) (y x : Int) (f1 : Full W (y + 1) x) (f2 : Full W (y + 1) (x + 1))
+    (h6 : W ⟨y, x + 1, 2⟩) : ∀ i, oAt W y x i :=
+  angles_all_of_five (anglesAt ha y x) 2 (f1 0) (f1 1) (f2 3) (f2 0) h6
+
+theorem p5' (ha : Angles W) (y x : Int) (h3 : ¬ W ⟨y + 1, x, 1⟩) (f2 : Full W (y + 1) (x + 1))
+    (h6 : W ⟨y, x + 1, 2⟩) : W ⟨y, x + 1, 3⟩ ∧ ¬ W ⟨y, x, 1⟩ := by
+  obtain ⟨_, b⟩ := run_start (anglesAt ha y x) 4 (f2 3) h3
+  rcases b with b | ⟨_, b, c⟩
+  · exact absurd h6 b
+  · exact ⟨b, c⟩
+
+theorem p6' (ha : Angles W) (y x : Int) (h4 : ¬ W ⟨y + 1, x + 1, 3⟩) (f1 : Full W (y + 1) x)
+    (h1 : W ⟨y, x, 2⟩) : W ⟨y, x, 1⟩ ∧ ¬ W ⟨y, x + 1, 3⟩ := by
+  obtain ⟨_, b⟩ := run_end (anglesAt ha y x) 3 (f1 1) h4
+  rcases b with b | ⟨_, b, c⟩
+  · exact absurd h1 b
+  · exact ⟨b, c⟩
+
+end
+
+/-! ### rows -/
+
+/-- The bottom side of cell `(y, x)` lies on the boundary of a white area, the area above it. -/
+def BotB (W : Quarter → Prop) (y x : Int) : Prop := W ⟨y, x, 2⟩ ∧ ¬ W ⟨y + 1, x, 0⟩
+
+/-- The cells `a .. b` of row `y` are completely white, the row is closed at both ends, `x` is one of them. -/
+def RowGood (W : Quarter → Prop) (a b y x : Int) : Prop :=
+  a ≤ x ∧ x ≤ b ∧ (∀ x', a ≤ x' → x' ≤ b → Full W y x') ∧ ¬ W ⟨y, a - 1, 1⟩ ∧ ¬ W ⟨y, b + 1, 3⟩
+
+section
+variable {W : Quarter → Prop}
+
+theorem botB_left (ha : Angles W) (y x : Int) (h : BotB W y x) :
+    W ⟨y, x, 3⟩ ∧ (W ⟨y, x - 1, 1⟩ → BotB W y (x - 1)) := by
+  have key := p2 ha y (x - 1)
+  have e : x - 1 + 1 = x := by omega
+  rw [e] at key
+  exact key h.1 h.2
+
+theorem botB_right (ha : Angles W) (y x : Int) (h : BotB W y x) :
+    W ⟨y, x, 1⟩ ∧ (W ⟨y, x + 1, 3⟩ → BotB W y (x + 1)) := p1 ha y x h.1 h.2
+
+theorem botB_full (hc : CellPattern W) (ha : Angles W) (y x : Int) (h : BotB W y x) : Full W y x :=
+  cell_all_of_opposite hc y x 1 (botB_right ha y x h).1 (botB_left ha y x h).1
+
+theorem rowGood_seed (hc : CellPattern W) (hb : Bounded W) (ha : Angles W) (y x : Int) (h : BotB W y x) :
+    ∃ a b, RowGood W a b y x := by
+  obtain ⟨B, hB⟩ := hb
+  obtain ⟨b, hb1, hb2, hb3⟩ := run_right (BotB W y) B (fun z hz => (hB _ hz.1).2.2.2) (B - x).toNat x (by omega) h
+  obtain ⟨a, ha1, ha2, ha3⟩ := run_left (BotB W y) B (fun z hz => (hB _ hz.1).2.2.1) x h
+  refine ⟨a, b, ha1, hb1, ?_, ?_, ?_⟩
+  · intro x' h1 h2
+    by_cases hx : x' ≤ x
+    · exact botB_full hc ha y x' (ha2 x' h1 hx)
+    · exact botB_full hc ha y x' (hb2 x' (by omega) h2)
+  · intro hw
+    exact ha3 ((botB_left ha y a (ha2 a (le_refl _) ha1)).2 hw)
+  · intro hw
+    exact hb3 ((botB_right ha y b (hb2 b hb1 (le_refl _))).2 hw)
+
+theorem rowGood_down (hc : CellPattern W) (ha : Angles W) (a b y x : Int) (h : RowGood W a b y x)
+    (h0 : W ⟨y + 1, x, 0⟩) : RowGood W a b (y + 1) x := by
+  obtain ⟨h1, h2, hF, hl, hr⟩ := h
+  have hN : ∀ x', a ≤ x' → x' ≤ b → W ⟨y + 1, x', 0⟩ := by
+    intro x' ha' hb'
+    by_cases hx : x ≤ x'
+    · refine int_up (fun z => W ⟨y + 1, z, 0⟩) x b h0 ?_ x' hx hb'
+      intro z hz1 hz2 hz
+      exact p3 ha y z (hF z (by omega) (by omega)) (hF (z + 1) (by omega) (by omega)) hz 5
+    · refine int_down (fun z => W ⟨y + 1, z, 0⟩) x a h0 ?_ x' (by omega) ha'
+      intro z hz1 hz2 hz
+      have key := p4 ha y (z - 1)
+      have e : z - 1 + 1 = z := by omega
+      rw [e] at key
+      exact key (hF (z - 1) (by omega) (by omega)) (hF z (by omega) (by omega)) hz 2
+  have hWq : ∀ x', a ≤ x' → x' ≤ b → W ⟨y + 1, x', 3⟩ ∧ (x' = a → ¬ W ⟨y + 1, a - 1, 1⟩) := by
+    intro x' ha' hb'
+    have e : x' - 1 + 1 = x' := by omega
+    by_cases hx : a < x'
+    · have key := p4 ha y (x' - 1)
+      rw [e] at key
+      have t := key (hF (x' - 1) (by omega) (by omega)) (hF x' ha' hb') (hN x' ha' hb') 4
+      change W ⟨y + 1, x' - 1 + 1, 3⟩ at t
+      rw [e] at t
+      exact ⟨t, fun h => by omega⟩
+    · have hxa : x' = a := by omega
+      subst hxa
+      have key := p5 ha y (x' - 1)
+      rw [e] at key
+      have := key hl (hF x' ha' hb') (hN x' ha' hb')
+      exact ⟨this.1, fun _ => this.2⟩
+  have hEq : ∀ x', a ≤ x' → x' ≤ b → W ⟨y + 1, x', 1⟩ ∧ (x' = b → ¬ W ⟨y + 1, b + 1, 3⟩) := by
+    intro x' ha' hb'
+    by_cases hx : x' < b
+    · exact ⟨p3 ha y x' (hF x' ha' hb') (hF (x' + 1) (by omega) (by omega)) (hN x' ha' hb') 3, fun h => by omega⟩
+    · have hxb : x' = b := by omega
+      subst hxb
+      have := p6 ha y x' hr (hF x' ha' hb') (hN x' ha' hb')
+      exact ⟨this.1, fun _ => this.2⟩
+  refine ⟨h1, h2, ?_, (hWq a (le_refl _) (by omega)).2 rfl, (hEq b (by omega) (le_refl _)).2 rfl⟩
+  intro x' ha' hb'
+  exact cell_all_of_opposite hc (y + 1) x' 1 (hEq x' ha' hb').1 (hWq x' ha' hb').1
+
+theorem rowGood_up (hc : CellPattern W) (ha : Angles W) (a b y x : Int) (h : RowGood W a b (y + 1) x)
+    (h0 : W ⟨y, x, 2⟩) : RowGood W a b y x := by
+  obtain ⟨h1, h2, hF, hl, hr⟩ := h
+  have hS : ∀ x', a ≤ x' → x' ≤ b → W ⟨y, x', 2⟩ := by
+    intro x' ha' hb'
+    by_cases hx : x ≤ x'
+    · refine int_up (fun z => W ⟨y, z, 2⟩) x b h0 ?_ x' hx hb'
+      intro z hz1 hz2 hz
+      exact p3' ha y z (hF z (by omega) (by omega)) (hF (z + 1) (by omega) (by omega)) hz 6
+    · refine int_down (fun z => W ⟨y, z, 2⟩) x a h0 ?_ x' (by omega) ha'
+      intro z hz1 hz2 hz
+      have key := p4' ha y (z - 1)
+      have e : z - 1 + 1 = z := by omega
+      rw [e] at key
+      exact key (hF (z - 1) (by omega) (by omega)) (hF z (by omega) (by omega)) hz 1
+  have hWq : ∀ x', a ≤ x' → x' ≤ b → W ⟨y, x', 3⟩ ∧ (x' = a → ¬ W ⟨y, a - 1, 1⟩) := by
+    intro x' ha' hb'
+    have e : x' - 1 + 1 = x' := by omega
+    by_cases hx : a < x'
+    · have key := p4' ha y (x' - 1)
+      rw [e] at key
+      have t := key (hF (x' - 1) (by omega) (by omega)) (hF x' ha' hb') (hS x' ha' hb') 7
+      change W ⟨y, x' - 1 + 1, 3⟩ at t
+      rw [e] at t
+      exact ⟨t, fun h => by omega⟩
+    · have hxa : x' = a := by omega
+      subst hxa
+      have key := p5' ha y (x' - 1)
+      rw [e] at key
+      have := key hl (hF x' ha' hb') (hS x' ha' hb')
+      exact ⟨this.1, fun _ => this.2⟩
+  have hEq : ∀ x', a ≤ x' → x' ≤ b → W ⟨y, x', 1⟩ ∧ (x' = b → ¬ W ⟨y, b + 1, 3⟩) := by
+    intro x' ha' hb'
+    by_cases hx : x' < b
+    · exact ⟨p3' ha y x' (hF x' ha' hb') (hF (x' + 1) (by omega) (by omega)) (hS x' ha' hb') 0, fun h => by omega⟩
+    · have hxb : x' = b := by omega
+      subst hxb
+      have := p6' ha y x' hr (hF x' ha' hb') (hS x' ha' hb')
+      exact ⟨this.1, fun _ => this.2⟩
+  refine ⟨h1, h2, ?_, (hWq a (le_refl _) (by omega)).2 rfl, (hEq b (by omega) (le_refl _)).2 rfl⟩
+  intro x' ha' hb'
+  exact cell_all_of_opposite hc y x' 1 (hEq x' ha' hb').1 (hWq x' ha' hb').1
+
+end
+
+section
+variable {W : Quarter → Prop}
+
+/-- `RowGood a b` is invariant along an area. -/
+theorem rowGood_inv (hc : CellPattern W) (ha : Angles W) (a b : Int) {s t : Quarter}
+    (h : RowGood W a b s.y s.x) (hst : Comp W s t) : RowGood W a b t.y t.x := by
+  induction hst with
+  | refl => exact h
+  | @tail u v _ huv ih =>
+    obtain ⟨_, hv, ht⟩ := huv
+    rcases ht with ⟨e1, e2, _⟩ | e
+    · rw [← e1, ← e2]; exact ih
+    · subst e
+      obtain ⟨y, x, q⟩ := u
+      obtain ⟨h1, h2, hF, hl, hr⟩ := ih
+      simp only at h1 h2 hF hl hr
+      fin_cases q
+      · show RowGood W a b (y - 1) x
+        have key := rowGood_up hc ha a b (y - 1) x
+        rw [show y - 1 + 1 = y by omega] at key
+        exact key ⟨h1, h2, hF, hl, hr⟩ hv
+      · show RowGood W a b y (x + 1)
+        have hv' : W ⟨y, x + 1, 3⟩ := hv
+        have : x + 1 ≤ b := by
+          by_contra hx
+          have e : x = b := by omega
+          subst e
+          exact hr hv'
+        exact ⟨by omega, this, hF, hl, hr⟩
+      · show RowGood W a b (y + 1) x
+        exact rowGood_down hc ha a b y x ⟨h1, h2, hF, hl, hr⟩ hv
+      · show RowGood W a b y (x - 1)
+        have hv' : W ⟨y, x - 1, 1⟩ := hv
+        have : a ≤ x - 1 := by
+          by_contra hx
+          have e : x = a := by omega
+          subst e
+          exact hl hv'
+        exact ⟨this, by omega, hF, hl, hr⟩
+
+/-- If some quarter of the area rests on the bottom side of its cell and the quarter below that side is not white,
+all cells of the area are completely white. -/
+theorem full_of_bottom (hc : CellPattern W) (hb : Bounded W) (ha : Angles W) {s t0 : Quarter} (hs : W s)
+    (h0 : Comp W s t0) (hq : t0.q = 2) (hn : ¬ W (across t0)) : ∀ t, Comp W s t → Full W t.y t.x := by
+  obtain ⟨y, x, q⟩ := t0
+  simp only at hq
+  subst hq
+  have hB : BotB W y x := ⟨comp_white hs h0, hn⟩
+  obtain ⟨a, b, hg⟩ := rowGood_seed hc hb ha y x hB
+  intro t ht
+  have := rowGood_inv hc ha a b (s := ⟨y, x, 2⟩) hg (comp_trans (comp_symm h0) ht)
+  exact this.2.2.1 t.x this.1 this.2.1
+
+end
+
 end Cspuz.Proofs.C11ShakashakaGA
